@@ -23,10 +23,17 @@
 //	                                                 connection after ms; each item may carry reloads
 //	                                                 (Service.UpdateAllConfigurer): @<ms>:<set> while connected, ms after the
 //	                                                 login; @o<ms>:<set> ms after this connection ended / was refused and
-//	                                                 before the next login is answered.  <set> = 0 | a1+b2+… (name+variant)
+//	                                                 before the next login is answered.  <set> = 0 | a1+b2+… (name+variant).
+//	                                                 A p/b/c item may carry a work-connection schedule (ms after the login):
+//	                                                 /q<ms> send ReqWorkConn | /s<ms> send StartWorkConn on the oldest idle
+//	                                                 work connection (a user connected) | /z<ms> close the oldest idle work
+//	                                                 connection.  Work connections nobody uses stay idle in the scripted
+//	                                                 server's pool until the control connection ends.
 //	cwwait ID                                        => per connection: kind:gap:close:pinggaps:regs;regs… (ms; regs = the
 //	                                                 proxies registered on this connection 350 ms after the login and
-//	                                                 after each reload, ~ = connection ended before)
+//	                                                 after each reload, ~ = connection ended before); with a work-connection
+//	                                                 schedule a 6th field N/END/ev;ev… : N NewWorkConn arrived, the connection
+//	                                                 ended END ms after the login, ev = q<t> | s<t>.<w> | z<t>.<w> as executed
 //
 // All durations are integer ns (ms for the watchdog scenarios); nothing here is compared literally:
 // the Lean side checks that every observed delay / closure time lies in the model's interval.
@@ -567,17 +574,29 @@ type cwReload struct {
 	set    string
 }
 
+// work-connection schedule of one scripted connection: q = ReqWorkConn, s = StartWorkConn on / z = close of the
+// oldest idle work connection; ms after the login
+type cwWork struct {
+	kind byte
+	ms   int
+}
+
 type cwItem struct {
 	kind    byte
 	arg     int
 	reloads []cwReload
+	work    []cwWork
 }
 
 func parseCwItem(s string) cwItem {
 	parts := strings.Split(s, "@")
-	it := cwItem{kind: parts[0][0]}
-	if len(parts[0]) > 1 {
-		it.arg = atoi(parts[0][1:])
+	head := strings.Split(parts[0], "/")
+	it := cwItem{kind: head[0][0]}
+	if len(head[0]) > 1 {
+		it.arg = atoi(head[0][1:])
+	}
+	for _, w := range head[1:] {
+		it.work = append(it.work, cwWork{w[0], atoi(w[1:])})
 	}
 	for _, r := range parts[1:] {
 		f := strings.SplitN(r, ":", 2)
@@ -661,11 +680,13 @@ func runCw(I, T int, set0 string, script []string) string {
 
 	// logins are time-stamped when they arrive, whatever the script is doing at that moment
 	arrivals := make(chan cwArrival, 16)
+	works := make(chan cwArrival, 64) // work connections (first message NewWorkConn), whatever session they belong to
+	stop := make(chan struct{})       // the scenario is over: late connections are dropped
+	defer close(stop)
 	go func() {
 		for {
 			conn, err := l.Accept()
 			if err != nil {
-				close(arrivals)
 				return
 			}
 			go func() {
@@ -675,12 +696,23 @@ func runCw(I, T int, set0 string, script []string) string {
 					conn.Close()
 					return
 				}
-				if _, ok := m.(*msg.Login); !ok {
-					conn.Close()
-					return
-				}
 				_ = conn.SetReadDeadline(time.Time{})
-				arrivals <- cwArrival{conn, time.Now()}
+				switch m.(type) {
+				case *msg.Login:
+					select {
+					case arrivals <- cwArrival{conn, time.Now()}:
+					case <-stop:
+						conn.Close()
+					}
+				case *msg.NewWorkConn:
+					select {
+					case works <- cwArrival{conn, time.Now()}:
+					default:
+						conn.Close()
+					}
+				default:
+					conn.Close()
+				}
 			}()
 		}
 	}()
@@ -690,9 +722,17 @@ func runCw(I, T int, set0 string, script []string) string {
 	for _, raw := range script {
 		item := parseCwItem(raw)
 		var a cwArrival
-		select {
-		case a = <-arrivals:
-		case <-time.After(30 * time.Second):
+		loginWait := time.After(30 * time.Second)
+	login:
+		for {
+			select {
+			case a = <-arrivals:
+				break login
+			case w := <-works:
+				w.conn.Close() // a work connection of a session that is over
+			case <-loginWait:
+				break login
+			}
 		}
 		if a.conn == nil {
 			out = append(out, "noconnect")
@@ -733,7 +773,7 @@ func runCw(I, T int, set0 string, script []string) string {
 			// timeline of this connection: reloads, the check points after the login and after each reload, the cut
 			type action struct {
 				at   time.Duration
-				what byte // 'R' reload, 'S' snapshot, 'X' cut
+				what byte // 'R' reload, 'S' snapshot, 'X' cut, 'q' ReqWorkConn, 's' StartWorkConn, 'z' close a work connection
 				set  string
 				idx  int
 			}
@@ -749,6 +789,9 @@ func runCw(I, T int, set0 string, script []string) string {
 			if item.kind == 'c' {
 				acts = append(acts, action{time.Duration(item.arg) * time.Millisecond, 'X', "", 0})
 			}
+			for _, wk := range item.work {
+				acts = append(acts, action{time.Duration(wk.ms) * time.Millisecond, wk.kind, "", 0})
+			}
 			sort.SliceStable(acts, func(i, j int) bool { return acts[i].at < acts[j].at })
 			reg := map[string]int{}
 			lastPong := tLogin // the client sets lastPong at NewControl, just after the login
@@ -757,6 +800,15 @@ func runCw(I, T int, set0 string, script []string) string {
 			lastPingAt := tLogin
 			errSentAt := time.Time{}
 			cutAt := time.Time{}
+			// the scripted server's pool: work connections in arrival order
+			type cwPooled struct {
+				conn net.Conn
+				idx  int
+			}
+			var idle []cwPooled
+			var taken []net.Conn
+			nWork := 0
+			var workEvs []string
 		conn:
 			for {
 				var timer <-chan time.Time
@@ -786,6 +838,9 @@ func runCw(I, T int, set0 string, script []string) string {
 					case *msg.CloseProxy:
 						delete(reg, mm.ProxyName)
 					}
+				case w := <-works:
+					idle = append(idle, cwPooled{w.conn, nWork})
+					nWork++
 				case <-timer:
 					a := acts[0]
 					acts = acts[1:]
@@ -794,6 +849,24 @@ func runCw(I, T int, set0 string, script []string) string {
 						_ = svc.UpdateAllConfigurer(cwSet(a.set), nil)
 					case 'S':
 						snaps[a.idx] = cwRegs(reg)
+					case 'q':
+						if msg.WriteMsg(rw, &msg.ReqWorkConn{}) == nil {
+							workEvs = append(workEvs, fmt.Sprintf("q%d", time.Since(tLogin).Milliseconds()))
+						}
+					case 's', 'z':
+						if len(idle) > 0 {
+							wc := idle[0]
+							idle = idle[1:]
+							workEvs = append(workEvs, fmt.Sprintf("%c%d.%d", a.what, time.Since(tLogin).Milliseconds(), wc.idx))
+							if a.what == 's' {
+								// a user connected: the client hands the connection to the proxy (or closes it)
+								_ = msg.WriteMsg(wc.conn, &msg.StartWorkConn{ProxyName: "a"})
+								taken = append(taken, wc.conn)
+								go func() { _, _ = io.Copy(io.Discard, wc.conn) }()
+							} else {
+								wc.conn.Close()
+							}
+						}
 					case 'X':
 						cutAt = time.Now()
 						conn.Close()
@@ -805,6 +878,12 @@ func runCw(I, T int, set0 string, script []string) string {
 			}
 			end := time.Now()
 			conn.Close()
+			for _, wc := range idle {
+				wc.conn.Close()
+			}
+			for _, wc := range taken {
+				wc.Close()
+			}
 			pg := strings.Join(pingGaps, "/")
 			if pg == "" {
 				pg = "-"
@@ -818,6 +897,13 @@ func runCw(I, T int, set0 string, script []string) string {
 				out = append(out, fmt.Sprintf("b:%d:%d:%s:%s", gap, end.Sub(errSentAt).Milliseconds(), pg, sn))
 			default:
 				out = append(out, fmt.Sprintf("p:%d:%d:%s:%s", gap, end.Sub(lastPong).Milliseconds(), pg, sn))
+			}
+			if len(item.work) > 0 {
+				evs := strings.Join(workEvs, ";")
+				if evs == "" {
+					evs = "-"
+				}
+				out[len(out)-1] += fmt.Sprintf(":%d/%d/%s", nWork, end.Sub(tLogin).Milliseconds(), evs)
 			}
 			prevEnd = end
 		}
@@ -1104,6 +1190,66 @@ func genWait(rng *rand.Rand, n int, emit func(string)) {
 			}
 		}
 		id := fmt.Sprintf("c%d", i)
+		emit(fmt.Sprintf("cwstart %s 1 %d %s %s", id, T, genSet(), strings.Join(items, ",")))
+		waits = append(waits, "cwwait "+id)
+	}
+	// idle work connections: the scripted server asks for work connections (as frps does on login with
+	// transport.poolCount > 0 and after every user connection), uses / closes some of them at any moment and lets
+	// the others sit idle in its pool, while it keeps answering pings -- for longer than the detection bound
+	// (heartbeatTimeout + checker period + slack), so that a client that stops reading Pongs would be seen closing
+	nwk := 2 + n/1700
+	for i := 0; i < nwk; i++ {
+		T := 2
+		if rng.Intn(4) == 0 {
+			T = 3
+		}
+		idle := T*1000 + 1700 + rng.Intn(500)
+		var items []string
+		burst := func(at, k int) string { // k requests within a few ms of each other
+			w := ""
+			for j := 0; j < k; j++ {
+				w += fmt.Sprintf("/q%d", at+rng.Intn(8))
+			}
+			return w
+		}
+		switch i % 4 {
+		case 0: // the pool is filled on login and nobody connects
+			at := 20 + rng.Intn(250)
+			items = []string{fmt.Sprintf("c%d%s", at+idle, burst(at, 1+rng.Intn(3)))}
+			if rng.Intn(2) == 0 { // ... and again on the session after the cut
+				at2 := 20 + rng.Intn(100)
+				items = append(items, fmt.Sprintf("c%d%s", at2+600+rng.Intn(300), burst(at2, 1+rng.Intn(2))))
+			}
+		case 1: // one request, a user connects (or the server drops the connection), the replacement request, then idle
+			at := 30 + rng.Intn(300)
+			use := at + 200 + rng.Intn(700)
+			re := use + 5 + rng.Intn(60)
+			items = []string{fmt.Sprintf("c%d/q%d/%c%d/q%d", re+idle, at, "sz"[rng.Intn(2)], use, re)}
+		case 2: // requests, uses and closes at random moments of a long session; reloads in between
+			total := idle + 300 + rng.Intn(1500)
+			w := ""
+			for j, k := 0, 1+rng.Intn(4); j < k; j++ {
+				w += fmt.Sprintf("/q%d", 10+rng.Intn(total-500))
+			}
+			for j, k := 0, rng.Intn(4); j < k; j++ {
+				w += fmt.Sprintf("/%c%d", "sz"[rng.Intn(2)], 100+rng.Intn(total-500))
+			}
+			it := fmt.Sprintf("c%d%s", total, w)
+			if rng.Intn(2) == 0 {
+				it += fmt.Sprintf("@%d:%s", 400+rng.Intn(total-1000), genSet())
+			}
+			items = []string{it}
+		default: // the server falls silent (or answers with an error) while work connections are idle: still detected in time
+			at := 20 + rng.Intn(200)
+			k := rng.Intn(3)
+			if rng.Intn(3) == 0 {
+				items = []string{fmt.Sprintf("b%d%s", 1+k, burst(at, 1+rng.Intn(2)))}
+			} else {
+				items = []string{fmt.Sprintf("p%d%s", k, burst(at, 1+rng.Intn(3)))}
+			}
+			items = append(items, fmt.Sprintf("c%d/q%d", 500+rng.Intn(300), 20+rng.Intn(80)))
+		}
+		id := fmt.Sprintf("k%d", i)
 		emit(fmt.Sprintf("cwstart %s 1 %d %s %s", id, T, genSet(), strings.Join(items, ",")))
 		waits = append(waits, "cwwait "+id)
 	}
